@@ -19,6 +19,9 @@ OBLIGATIONS = [
     "KafVerif.C44.reads_match_iff",
     "KafVerif.C44.read_seg_replica_missing",
     "KafVerif.C44.read_seg_replica_failing",
+    "KafVerif.C44.read_depends_only_on_own_request",
+    "KafVerif.C44.read_depends_only_on_own_key",
+    "KafVerif.C44.batch_reads_match",
     "KafVerif.C44.reads_match_safe_history",
     "KafVerif.C44.reads_match_partial",
     "KafVerif.C44.writes_primary",
@@ -33,6 +36,12 @@ ASSUMPTIONS = [
     "S3 replication copies whole current objects (or the absence of a deleted object) one object at a time, at any time or never; segment and index objects replicate independently",
     "the primary's own read faults are generated for the correspondence only; the property (and the monitor) compare with a healthy primary",
     "which backends a READ consults is not compared (only its result); which backend WRITES/LISTS reach is",
+    "no cross-request state: in the model a read is a pure function of (primary state, replica state, key, range) "
+    "(read_depends_only_on_own_request); validated on the implementation by `conc` ops (2-4 overlapping reads, same key / same start / "
+    "different end, gated inside the primary fake so that they overlap), each compared with the primary's bytes for its own range",
+    "time is not modelled: a replica that is slow to answer counts as answering, one that is slow to fail / hangs and then fails counts as "
+    "failing; validated by `rmode slowok|slowfail|hang` ops on context-aware fakes (they return ctx.Err() once the context is done) and by the "
+    "`slow` scenario (replica stalls 2.5 s, caller deadline 20 s: the caller must still get the primary's bytes)",
 ]
 TECHNIQUE = "Lean 4: invariant (replica holds only current versions) by induction over all replication-safe histories => dual read = primary read for every key/range/fault set; witness theorems for the lagging-overwrite/delete case; differential correspondence + monitor on the real dualS3Client inside the broker binary"
 LEVEL_TEXT = ("proof (partial): reads_match_safe_history / read_seg_match / read_idx_match / writes_primary / replica_read_only are full strength for "
@@ -77,6 +86,8 @@ class Sim:
                 self.rep[kind].pop(k, None)
         elif op == "rfail":
             (self.rfail.add if f[2] == "1" else self.rfail.discard)(int(f[1]))
+        elif op == "rmode":
+            (self.rfail.add if f[2] in ("fail", "slowfail", "hang") else self.rfail.discard)(int(f[1]))
         elif op == "pfail":
             (self.pfail.add if f[2] == "1" else self.pfail.discard)(int(f[1]))
 
@@ -88,6 +99,25 @@ def body(rng):
     n = rng.choice([0, 1, 2, 3, 5, 8, 13, 32])
     fill = rng.below(256)
     return lib.hexs(bytes((fill + i) & 0xFF for i in range(n)))
+
+
+def gen_conc(rng, sim, k):
+    """2-4 overlapping reads; mostly the same key with the same start and different ends (or the whole object)."""
+    n = rng.range(2, 4)
+    start = rng.choice([0, 0, 1, 2, 4])
+    items = []
+    for j in range(n):
+        kk = k if rng.chance(3, 4) else rng.below(NKEYS)
+        r = rng.below(10)
+        if r < 6:
+            items.append("s:%d:%d:%d" % (kk, start, start + rng.choice([0, 1, 2, 3, 5, 7, 12, 30, 100]) + j))
+        elif r < 8:
+            items.append("s:%d:-" % kk)
+        elif r < 9:
+            items.append("s:%d:%d:%d" % (kk, rng.choice([0, 3, 9]), rng.choice([2, 6, 40])))
+        else:
+            items.append("i:%d" % kk)
+    return "conc " + ",".join(items)
 
 
 def gen_history(rng, n, safe):
@@ -109,14 +139,18 @@ def gen_history(rng, n, safe):
                 op = "del%s %d" % (kind, k)
         elif r < 36:
             op = "repl%s %d" % (kind, k)
-        elif r < 42:
+        elif r < 39:
             op = "rfail %d %d" % (k, 1 if rng.chance(2, 3) else 0)
+        elif r < 42:
+            op = "rmode %d %s %d" % (k, rng.choice(["slowok", "slowfail", "hang", "ok", "fail", "slowfail"]), rng.choice([1, 3, 8]))
         elif r < 44:
             op = "pfail %d %d" % (k, 1 if rng.chance(1, 3) else 0)
         elif r < 48:
             op = "list"
         elif r < 50:
             op = "ensure"
+        elif r < 56:
+            op = gen_conc(rng, sim, k)
         elif r < 80:
             if kind == "idx":
                 op = "rdidx %d" % k
@@ -169,6 +203,18 @@ def monitor(ops, out):
                     bad.append((i, "listing-differs-from-primary", "dual listing %r, primary holds %r" % (got, want_l)))
             elif not o.startswith("ok"):
                 bad.append((i, "write-through-dual-failed", "%r -> %s" % (op, o)))
+        elif f[0] == "conc":
+            for it, part in zip(f[1].split(","), o.split()[1:]):
+                p = it.split(":")
+                kind, k = ("idx" if p[0] == "i" else "seg"), int(p[1])
+                res, pri = part.split("/")
+                if k in sim.pfail or res == pri:
+                    continue
+                if sim.stale(kind, k) and k not in sim.rfail:
+                    bad.append((i, KNOWN_FP, "concurrent read %s: replica holds an outdated copy of object %d: %s, primary %s" % (it, k, res[:60], pri[:60])))
+                else:
+                    bad.append((i, "concurrent-read-differs-from-primary-for-its-own-range",
+                                "%r: read %s returned %s but the primary answers %s for that key/range" % (op, it, res[:80], pri[:80])))
         elif f[0] in ("rdseg", "rdidx"):
             k = int(f[1])
             kind = "seg" if f[0] == "rdseg" else "idx"
@@ -217,6 +263,9 @@ def run(ck):
                    "upidx 1 0708", "rdidx 1", "replidx 1", "rfail 1 0", "rdidx 1", "list", "ensure", "delseg 2", "rdseg 1 3 9"], True))
     cases.append((["new", "upseg 1 0101", "replseg 1", "upseg 1 0202", "rdseg 1", "replseg 1", "rdseg 1",
                    "delseg 1", "rdseg 1", "list"], False))
+    cases.append((["new", "upseg 1 0102030405060708", "upidx 1 0a0b", "rmode 1 slowfail 5", "rdseg 1 1 3", "rdidx 1", "rmode 1 hang 5", "rdseg 1",
+                   "replseg 1", "rmode 1 slowok 5", "rdseg 1 2 4", "rmode 1 fail", "conc s:1:0:2,s:1:0:5,s:1:-,i:1,s:2:0:1",
+                   "upseg 2 1112131415", "conc s:2:1:1,s:2:1:3,s:1:1:2,s:2:1:9", "rmode 1 ok", "conc s:1:0:0,s:1:0:7"], True))
     for i in range(60 if q else 600):
         cases.append((gen_history(ck.rng.fork(), 80 if q else 200, True), True))
     for i in range(20 if q else 200):
@@ -238,6 +287,8 @@ def run(ck):
         ck.count("reads_served_by_replica", rep_hits); ck.count("reads_falling_back_to_primary", fallbacks)
         ck.count("range_reads", sum(1 for x in ops if x.startswith("rdseg") and len(x.split()) == 4))
         ck.count("histories_safe" if safe else "histories_unsafe")
+        ck.count("concurrent_read_batches", sum(1 for x in ops if x.startswith("conc ")))
+        ck.count("slow_or_hanging_replica_mode_ops", sum(1 for x in ops if x.startswith("rmode ") and x.split()[2] in ("slowok", "slowfail", "hang")))
         ck.case(tuple(ops), nontrivial=(rep_hits > 0 and fallbacks > 0), sample={"safe": safe, "ops": ops[:10], "impl": io[:10]})
         ck.cov["traces_validated_against_impl"] += 1
         bad = monitor(ops, io)
@@ -268,6 +319,22 @@ def run(ck):
                          "the replica copies it, after restart the next flush overwrites segment-0.kfs on the primary; reading offset 0 returns the "
                          "orphan batch (marker %s) instead of the acknowledged one (marker %s)" % (kv.get("read"), kv.get("primary")),
                          {"ops": ["scenario"], "impl": sc_impl[0]})
+    # replicas that stall for 2.5 s (slow to fail / slow to answer) under a 20 s caller deadline
+    sl_impl, _, crash = run_lines(ck, binary, ["slow"], "slow")
+    if crash or not sl_impl[0].startswith("slow "):
+        ck.broke("slow-replica scenario did not run", crash or sl_impl[0])
+    else:
+        ck.case(("slow", sl_impl[0]), sample={"op": "slow", "impl": sl_impl[0]})
+        ck.cov["traces_validated_against_impl"] += 1
+        for part in sl_impl[0].split()[1:]:
+            name, rest = part.split("=", 1)
+            res, pri = rest.split("/")
+            ck.count("slow_replica_reads")
+            if res != pri:
+                ck.violation("slow-replica-read-does-not-fall-back-to-primary",
+                             "replica stalls 2.5 s (%s) under a 20 s caller deadline: dual read %s, the primary holds %s" % (
+                                 {"a": "slow to fail, range read", "b": "slow to fail, index", "c": "hangs then fails", "d": "slow to answer"}.get(name, name), res, pri),
+                             {"ops": ["slow"], "impl": sl_impl[0]})
     ck.partial = ("reads match the primary is proved for replication-safe histories (the primary never changes or deletes an object the "
                   "replica already holds); for a replica lagging behind an overwrite/delete the statement is false (witness theorems) — known finding")
 
@@ -290,6 +357,11 @@ def replay(ck, path):
     for (i, fp, what) in monitor(ops, impl):
         ck.violation(fp, what, {"ops": ops, "actual": what})
     for o in impl:
+        if o.startswith("slow "):
+            for part in o.split()[1:]:
+                res, pri = part.split("=", 1)[1].split("/")
+                if res != pri:
+                    ck.violation("slow-replica-read-does-not-fall-back-to-primary", "slow scenario: %s" % part, {"ops": ops, "impl": o})
         if o.startswith("scenario "):
             kv = dict(x.split("=", 1) for x in o.split()[1:])
             if kv.get("read") != kv.get("primary"):
